@@ -60,6 +60,7 @@ def gen_base(seed, tier="quick"):
         knobs["reconnect_limit"] = r.choice([None, None, 0, 1, 3])
         knobs["exceptions_on_send"] = r.random() < 0.6
         knobs["glob"] = r.random() < 0.3
+        knobs["renumber"] = knobs["glob"] and r.random() < 0.6     # the node name changes on every return
     ncallers = r.choice([1, 1, 2, 2, 3])
     callers = plans.gen_callers(r, driver, ncallers, 2, mix=(0.75, 0.0, 0.25),
                                 allow_raise=False, allow_cancel=False, unsupported=0.04,
@@ -172,6 +173,10 @@ def variants(base, base_res, tier, r):
         for i in range(nsends):
             out.append(mk([{"kind": "silent-confirm", "send_idx": i}]))
             out.append(mk([{"kind": "silent-answer", "send_idx": i}]))
+            if drv == "luba":
+                # the gateway stops in the middle of a message (LUBA frames start with a sync byte;
+                # SCI has none: there a truncated message cannot be told from a delayed one)
+                out.append(mk([{"kind": "truncated-confirm", "send_idx": i, "keep": r.choice([1, 2, 3, 5, 8])}]))
             out.append(mk([{"kind": "late-confirm", "send_idx": i,
                             "extra_us": r.choice([1_300_000, 2_000_000]) if drv == "luba"
                             else r.choice([130_000, 400_000])}]))
@@ -368,6 +373,8 @@ def _hooks(plan, ctx):
                 dev.silent_confirm.add(f["send_idx"])
             elif kind == "silent-answer":
                 dev.silent_answer.add(f["send_idx"])
+            elif kind == "truncated-confirm":
+                dev.truncate_confirm[f["send_idx"]] = f["keep"]
             elif kind == "late-confirm":
                 dev.late_confirm[f["send_idx"]] = f["extra_us"]
 
@@ -405,6 +412,30 @@ def _hooks(plan, ctx):
         # faults have stopped: nothing armed may strike the recovery phase
         if hid:
             dev.write_fault_at.clear()
+        else:
+            for armed in (dev.silent_confirm, dev.silent_answer, dev.late_confirm,
+                          getattr(dev, "truncate_confirm", {})):
+                armed.clear()
+        if any(f["kind"] == "truncated-confirm" for f in plan.get("faults", [])):
+            # a message cut short leaves the length-prefixed deframer waiting for the rest: the next
+            # message, whenever it comes, completes the fragment and is lost with it.  One command is
+            # spent on that - it may fail or go unanswered in time, it must not hang - before recovery is judged
+            tok = world.unit.set("post.flush")
+            t_post = world.loop.time()
+            try:
+                await asyncio.wait_for(driver.send(cmds.mk_cmd(cmds.spec_of(_query(7)))), 60)
+            except asyncio.TimeoutError as e:
+                if world.loop.time() - t_post >= 59.9:
+                    rr.post.append(("hang", "post.flush", None, None, e))
+                    return
+            except Exception:                   # noqa: BLE001
+                pass
+            finally:
+                try:
+                    world.unit.reset(tok)
+                except ValueError:
+                    pass
+            await asyncio.sleep(0.2)
         # fresh sends after recovery
         n = plan.get("post_sends", 2)
         vals = plan["post_values"]
@@ -417,10 +448,12 @@ def _hooks(plan, ctx):
             tok = world.unit.set(unit)
             try:
                 kw = {"exceptions": True} if hid else {}
+                t_post = world.loop.time()
                 res = await asyncio.wait_for(driver.send(cmds.mk_cmd(spec), **kw), 60)
                 rr.post.append(("ok", unit, spec, v, res))
             except asyncio.TimeoutError as e:
-                rr.post.append(("hang", unit, spec, v, e))
+                # (the serial drivers report their own time-outs with the same exception class)
+                rr.post.append(("hang" if world.loop.time() - t_post >= 59.9 else "raised", unit, spec, v, e))
                 break
             except Exception as e:                  # noqa: BLE001
                 rr.post.append(("raised", unit, spec, v, e))
@@ -605,6 +638,9 @@ def judge(rr, ctx):
             _, unit, spec, v, res = item
             judge_response(V, drv, unit, cmds.mk_cmd(spec), ["value", v], res, False, all_values, serial)
     if hid:
+        for t_, path_, node_ in getattr(rr.dev, "unexpected_open_failures", [])[:1]:
+            V("reconnect-attempt-wasted-on-stale-node", "at %d us the driver tried to open %s although its pattern matches "
+              "the returned device as %s: the attempt failed with the device present" % (t_, path_, node_), site=drv)
         _judge_status(V, rr, ctx, kn)
         if getattr(rr.dev, "handshake_violations", None):
             V("send-before-handshake", "SEND reached the gateway before read-version/read-serial: %s" % (
@@ -709,6 +745,8 @@ def _serial_fail_timing(V, rr, u, rec, drv):
         return
     last = sends[-1]
     nconf = 2 if (last.get("twice") and drv == "luba") else 1
+    if any(f["kind"] == "truncated-confirm" for f in rr.plan.get("faults", [])):
+        nconf += 1          # the fragment may swallow one of the messages waited for, each wait has its own time-out
     limit = CONF_TO[drv] * nconf + 0.005
     took = (rec.t_end - last["t_us"]) * US
     if took > limit:
@@ -791,9 +829,9 @@ def run_plan(plan):
         nt = True
         w.probe("cancel-while-awaiting-report")
     for f in faults:
-        if f["kind"] in ("silent-confirm", "silent-answer", "late-confirm"):
+        if f["kind"] in ("silent-confirm", "silent-answer", "late-confirm", "truncated-confirm"):
             nt = True
-            w.probe({"silent-confirm": "confirm-lost", "silent-answer": "answer-lost",
+            w.probe({"silent-confirm": "confirm-lost", "silent-answer": "answer-lost", "truncated-confirm": "confirm-truncated",
                      "late-confirm": "confirm-late"}[f["kind"]])
             w.fault(f["kind"])
         if f.get("second_loss_after_return_us") is not None and len(getattr(dev, "losses", [])) > 1:
